@@ -70,11 +70,25 @@ def scan_sources():
 
 
 def prop_theorems(prop):
+    """fully qualified names of the property theorems of Props/<prop>.lean (a file may hold several namespaces)"""
     p = os.path.join(LEAN, "Dia", "Props", prop + ".lean")
     if not os.path.exists(p):
         return []
     body = lean_strip_comments(open(p, encoding="utf-8").read())
-    return re.findall(r"^theorem\s+(\S+)", body, flags=re.M)
+    out, stack = [], []
+    for l in body.split("\n"):
+        m = re.match(r"^namespace\s+(\S+)", l)
+        if m:
+            stack.append(m.group(1))
+            continue
+        m = re.match(r"^end\s+(\S+)", l)
+        if m and stack and stack[-1] == m.group(1):
+            stack.pop()
+            continue
+        m = re.match(r"^theorem\s+(\S+)", l)
+        if m:
+            out.append(".".join(stack + [m.group(1)]))
+    return out
 
 
 def build_lean(prop, clean=False):
@@ -89,13 +103,6 @@ def build_lean(prop, clean=False):
     return {"ok": rc == 0, "log": out[-4000:], "secs": round(secs, 1), "targets": targets}
 
 
-def prop_namespace(prop):
-    p = os.path.join(LEAN, "Dia", "Props", prop + ".lean")
-    body = lean_strip_comments(open(p, encoding="utf-8").read())
-    m = re.search(r"^namespace\s+(\S+)", body, flags=re.M)
-    return m.group(1) if m else "Dia"
-
-
 def audit(prop):
     """#print axioms for every property theorem; source scan. Returns dict with per-theorem axioms."""
     thms = prop_theorems(prop)
@@ -104,12 +111,11 @@ def audit(prop):
         res["bad"].append("no property theorem found for " + prop)
         return res
     wd = workdir(prop)
-    ns = prop_namespace(prop)
     ap = os.path.join(wd, "audit.lean")
     with open(ap, "w") as f:
         f.write("import Dia.Props.%s\n" % prop)
         for t in thms:
-            f.write("#print axioms %s.%s\n" % (ns, t))
+            f.write("#print axioms %s\n" % t)
     rc, out, _ = sh(["lake", "env", "lean", ap], cwd=LEAN, timeout=1800)
     if rc != 0:
         res["bad"].append("audit file does not compile: " + out[-800:])
@@ -117,10 +123,10 @@ def audit(prop):
     # "'Dia.x' depends on axioms: [a, b]"  (may wrap over lines)  /  "'Dia.x' does not depend on any axioms"
     flat = re.sub(r"\s+", " ", out)
     for t in thms:
-        m = re.search(r"'%s\.%s' depends on axioms: \[([^\]]*)\]" % (re.escape(ns), re.escape(t)), flat)
+        m = re.search(r"'%s' depends on axioms: \[([^\]]*)\]" % re.escape(t), flat)
         if m:
             ax = [a.strip() for a in m.group(1).split(",") if a.strip()]
-        elif re.search(r"'%s\.%s' does not depend on any axioms" % (re.escape(ns), re.escape(t)), flat):
+        elif re.search(r"'%s' does not depend on any axioms" % re.escape(t), flat):
             ax = []
         else:
             res["bad"].append("no axiom report for " + t)
